@@ -103,11 +103,11 @@ function checkArgs(name, args, skipFirst) {
   }
 }
 
-/** per-slot borrow sets of the value a call returns, from the signature model alone (gen.mjs::outlives) */
-function returnBorrows(m, call) {
+/** borrow sets of the value(s) a call returns, from the signature model alone (gen.mjs::outlives) */
+function borrowComputer(m, call) {
   const { out } = outlives(W.spec, m);
-  const targets = m.ret.args.map((a) => (a === "static" ? null : a));
-  const compute = (r) => {
+  const allStructs = [...W.spec.structs, ...(W.spec.outs || [])];
+  return (r) => {
     const set = new Set();
     if (!r) return set;
     const addParam = (outer, args, ent) => {
@@ -115,25 +115,44 @@ function returnBorrows(m, call) {
       if (outer && out(outer, r)) set.add(ent);
       args.forEach((y, j) => { if (y !== "static" && out(y, r)) for (const e of ent.slots[j] || []) set.add(e); });
     };
+    const addStruct = (sname, actualArgs, value) => {
+      const sdef = allStructs.find((s) => s.name === sname);
+      const sub = (l) => actualArgs[sdef.lts.indexOf(l)];
+      sdef.fields.forEach((f, fi) => {
+        const fv = value ? value[fi] : null;
+        if (!fv) return;
+        if (f.kind === "slice") { if (out(sub(f.lt), r)) set.add(fv); }
+        else if (f.kind === "struct") addStruct(f.ty, f.args.map(sub), fv);
+        else addParam(sub(f.lt), f.args.map(sub), fv);
+      });
+    };
     if (m.self) addParam(m.self.lt, m.implLts, call.self);
     m.params.forEach((p, i) => {
       const v = call.args[i];
       if (p.kind === "opaque" || p.kind === "optopaque") addParam(p.lt, p.args, v);
       else if (p.kind === "slice") { if (p.lt && out(p.lt, r) && v) set.add(v); }
-      else if (p.kind === "struct" && v) {
-        const sdef = W.spec.structs.find((s) => s.name === p.ty);
-        sdef.fields.forEach((f, fi) => {
-          const actual = p.args[sdef.lts.indexOf(f.lt)];
-          const fv = v[fi];
-          if (!fv) return;
-          if (f.kind === "slice") { if (out(actual, r)) set.add(fv); }
-          else addParam(actual, f.args.map((a) => p.args[sdef.lts.indexOf(a)]), fv);
-        });
-      }
+      else if (p.kind === "struct" && v) addStruct(p.ty, p.args, v);
     });
     return set;
   };
-  return { slots: targets.map(compute), storage: compute(m.ret.lt) };
+}
+function returnBorrows(m, call) {
+  const compute = borrowComputer(m, call);
+  return { slots: m.ret.args.map((a) => compute(a === "static" ? null : a)), storage: compute(m.ret.lt) };
+}
+/** a by-value out-struct: one by-reference pseudo-object per field */
+function structReturnFields(m, call, noneMask) {
+  const compute = borrowComputer(m, call);
+  const sdef = W.spec.outs.find((s) => s.name === m.ret.ty);
+  const sub = (l) => m.ret.args[sdef.lts.indexOf(l)];
+  return sdef.fields.map((f, fi) => {
+    if (f.opt && (noneMask >> fi) & 1) return null;
+    const ent = newObj(f.ty);
+    ent.borrowedReturn = true;
+    ent.storage = compute(sub(f.lt));
+    ent.slots = f.args.map((a) => compute(sub(a)));
+    return ent;
+  });
 }
 
 function exportFn(name) {
@@ -167,18 +186,32 @@ function exportFn(name) {
     if (!call || call.abi !== name) { violate("HARNESS", `unexpected export call ${name}`); return 0; }
     W.pendingCall = null;
     const m = call.method;
-    const res = m.ret && m.ret.kind === "resbox";
-    checkArgs(name, args, res);
+    const res = m.ret && (m.ret.kind === "resbox" || m.ret.kind === "resstruct");
+    const viaBuf = res || (m.ret && m.ret.kind === "struct");
+    checkArgs(name, args, viaBuf);
     if (W.armThrow) { W.armThrow = false; inc("fault_export_threw_fired"); throw new Error("injected fault: Rust panic routed through diplomat_throw_error_js"); }
     // resolve the slice arguments to the buffers that now carry their tag bytes
     const resolveBuf = (b) => { if (b && b.kind === "buf" && !b.alloc) { b.alloc = findTag(b.tag, b.enc); if (!b.alloc) violate("S2-slice-not-passed", `${name}: the bytes of slice argument "${b.tag}" are not in any live buffer during the call`); } };
-    for (const v of call.args) { if (!v) continue; if (v.kind === "buf") resolveBuf(v); else if (Array.isArray(v)) v.forEach(resolveBuf); }
+    const resolveAll = (v) => { if (!v) return; if (Array.isArray(v)) v.forEach(resolveAll); else resolveBuf(v); };
+    call.args.forEach(resolveAll);
     let ent;
     if (call.isMk) {
       ent = newObj(type); ent.slots = call.args.map((b) => new Set(b ? [b] : []));
     } else {
       const arm = call.arm;
       if ((m.ret.kind === "optbox" || m.ret.kind === "optref") && !arm) { inc("fault_arm_none_fired"); return 0; }
+      if (m.ret.kind === "struct" || m.ret.kind === "resstruct") {
+        const sdef = W.spec.outs.find((x) => x.name === m.ret.ty);
+        const flagAt = args[0] + 4 * sdef.fields.length;
+        if (res && !arm) { inc("fault_arm_err_fired"); new Uint8Array(W.memory.buffer)[flagAt] = 0; return; }
+        const fields = structReturnFields(m, call, call.noneMask || 0);
+        const dv = new DataView(W.memory.buffer);
+        fields.forEach((e, i) => dv.setUint32(args[0] + 4 * i, e ? e.addr : 0, true));
+        if (res) dv.setUint8(flagAt, 1);
+        W.lastReturn = { kind: "struct", fields, def: sdef };
+        inc("struct_returned");
+        return;
+      }
       if (res && !arm) { inc("fault_arm_err_fired"); new Uint8Array(W.memory.buffer)[args[0] + 4] = 0; return; }
       const b = returnBorrows(m, call);
       ent = newObj(m.ret.ty); ent.slots = b.slots;
@@ -224,12 +257,16 @@ function genTrace(spec, seed, bridge, run) {
       if (p.kind === "opaque") return slotOf(p.ty);
       if (p.kind === "optopaque") return rng.below(8) < noneRate ? -1 : slotOf(p.ty);
       if (p.kind === "slice") return "tag";
-      const sdef = spec.structs.find((s) => s.name === p.ty);
-      return sdef.fields.map((f) => (f.kind === "opaque" ? slotOf(f.ty) : "tag"));
+      const structArg = (sname) => spec.structs.find((s) => s.name === sname).fields.map((f) => (f.kind === "opaque" ? slotOf(f.ty) : f.kind === "struct" ? structArg(f.ty) : f.opt && rng.chance(1, 6) ? "none" : "tag"));
+      return structArg(p.ty);
     });
     const arm = !(rng.below(8) < noneRate);
-    ops.push({ op: "call", m: spec.methods.indexOf(m), self: m.static ? -1 : slotOf(m.owner), args, dst, arm });
-    if (arm || m.ret.kind === "box" || m.ret.kind === "ref") types[dst] = m.ret.ty;
+    const isStruct = m.ret.kind === "struct" || m.ret.kind === "resstruct";
+    ops.push({ op: "call", m: spec.methods.indexOf(m), self: m.static ? -1 : slotOf(m.owner), args, dst, arm, noneMask: isStruct ? rng.below(8) * (rng.below(8) < noneRate ? 1 : 0) : 0 });
+    if (isStruct) {
+      // the fields of the returned struct are spread over the free slots (the executor does the same)
+      if (arm || m.ret.kind === "struct") { const sdef = spec.outs.find((s) => s.name === m.ret.ty); let k = 0; for (let si = 0; si < NSLOT && k < sdef.fields.length; si++) if (!types[si]) { types[si] = sdef.fields[k].ty; k++; } }
+    } else if (arm || m.ret.kind === "box" || m.ret.kind === "ref") types[dst] = m.ret.ty;
   }
   return { seed, bridge, run, ops };
 }
@@ -300,7 +337,7 @@ async function execute(spec, classes, trace) {
         if (!m || held[op.dst]) { did = false; break; }
         let selfH = null;
         if (!m.static) { selfH = held[op.self]; if (!selfH || selfH.ent.type !== m.owner) { did = false; break; } }
-        const jsArgs = [], entArgs = [];
+        const jsArgs = [], entArgs = [], usedSlots = [];
         let ok = true;
         m.params.forEach((p, i) => {
           const a = op.args[i];
@@ -313,26 +350,43 @@ async function execute(spec, classes, trace) {
             const b = { kind: "buf", tag: freshTag(), enc: p.enc, alloc: null };
             jsArgs.push(sliceValue(b.tag, p.enc)); entArgs.push(b);
           } else {
-            const sdef = spec.structs.find((s) => s.name === p.ty);
-            const fieldsObj = {}, ents = [];
-            sdef.fields.forEach((f, fi) => {
-              if (f.kind === "opaque") { const h = held[Array.isArray(a) ? a[fi] : -1]; if (!h || h.ent.type !== f.ty) { ok = false; return; } fieldsObj[f.name] = h.w; ents.push(h.ent); }
-              else { const b = { kind: "buf", tag: freshTag(), enc: f.enc, alloc: null }; fieldsObj[f.name] = sliceValue(b.tag, f.enc); ents.push(b); }
-            });
-            if (ok) { jsArgs.push(classes[p.ty].fromFields(fieldsObj)); entArgs.push(ents); }
+            const build = (sname, a) => {
+              const sdef = spec.structs.find((s) => s.name === sname);
+              const fieldsObj = {}, ents = [];
+              sdef.fields.forEach((f, fi) => {
+                const av = Array.isArray(a) ? a[fi] : -1;
+                if (f.kind === "opaque") { const h = held[typeof av === "number" ? av : -1]; if (!h || h.ent.type !== f.ty) { ok = false; return; } fieldsObj[f.name] = h.w; ents.push(h.ent); usedSlots.push(av); }
+                else if (f.kind === "struct") { const sub = build(f.ty, av); if (sub) { fieldsObj[f.name] = sub.js; ents.push(sub.ents); } }
+                else if (f.opt && av === "none") { ents.push(null); inc("optional_slice_field_absent"); }
+                else { const b = { kind: "buf", tag: freshTag(), enc: f.enc, alloc: null }; fieldsObj[f.name] = sliceValue(b.tag, f.enc); ents.push(b); if (f.opt) inc("optional_slice_field_present"); }
+              });
+              return ok ? { js: classes[sname].fromFields(fieldsObj), ents } : null;
+            };
+            const built = build(p.ty, a);
+            if (built) { jsArgs.push(built.js); entArgs.push(built.ents); }
           }
         });
         if (!ok) { did = false; break; }
         // inputs are *used* by this call: they must be intact
         if (selfH) checkUse(held, op.self, "used as self");
         m.params.forEach((p, i) => { if ((p.kind === "opaque" || p.kind === "optopaque") && op.args[i] >= 0) checkUse(held, op.args[i], "passed as argument"); });
+        for (const us of usedSlots) if (!W.violation && held[us]) checkUse(held, us, "passed inside a struct argument");
         if (W.violation) break;
-        W.pendingCall = { abi: methodAbi(m), method: m, self: selfH ? selfH.ent : null, args: entArgs, arm: op.arm };
+        W.pendingCall = { abi: methodAbi(m), method: m, self: selfH ? selfH.ent : null, args: entArgs, arm: op.arm, noneMask: op.noneMask || 0 };
         W.lastReturn = null;
         const r = doCall(() => (m.static ? classes[m.owner][m.name](...jsArgs) : selfH.w[m.name](...jsArgs)));
         W.pendingCall = null;
         if (r.err) { inc("call_threw"); line += " threw " + String(r.err.message).slice(0, 60); break; }
-        if (r.v != null && W.lastReturn) held[op.dst] = { w: r.v, ent: W.lastReturn };
+        if (r.v != null && W.lastReturn && W.lastReturn.kind === "struct") {
+          // a by-value struct of borrowed fields: the program keeps the field wrappers (public getters)
+          const lr = W.lastReturn; let k = 0;
+          for (let si = 0; si < NSLOT && k < lr.fields.length; si++) {
+            if (held[si]) continue;
+            const ent = lr.fields[k]; const fw = r.v[lr.def.fields[k].name]; k++;
+            if (ent && fw) held[si] = { w: fw, ent };
+            else if (!!ent !== !!fw) violate("HARNESS", "struct field presence differs from what the model wrote");
+          }
+        } else if (r.v != null && W.lastReturn) held[op.dst] = { w: r.v, ent: W.lastReturn };
         else line += " -> null";
         break;
       }
@@ -399,7 +453,7 @@ async function main() {
   const spec = JSON.parse(fs.readFileSync(path.join(dir, "desc.json"), "utf8"));
   W.spec = spec; wasmReset();
   const classes = {};
-  for (const t of [...spec.opaques, ...spec.structs]) {
+  for (const t of [...spec.opaques, ...spec.structs, ...(spec.outs || [])]) {
     const mod = await import(pathToFileURL(path.join(dir, "api", t.name + ".mjs")).href);
     classes[t.name] = mod[t.name];
     if (!classes[t.name]) { console.error("HARNESS-ERROR generated module has no class " + t.name); process.exit(2); }
